@@ -25,8 +25,8 @@ func init() {
 		assumeSite("C02-CTL", e[0], e[1])
 	}
 	register(&PropDef{
-		ID:       "C02",
-		Patterns: []string{"./node", "./data", "./runtime", "./parser"},
+		ID:          "C02",
+		Patterns:    []string{"./node", "./data", "./runtime", "./parser"},
 		Explanation: "Non-local control flow is carried by data.Control values returned next to every evaluation result. 'Every loop exit and return transfers control to exactly the construct it names' needs, structurally: (CTL) a control returned by a child evaluation is never dropped — before the next child is evaluated, before the variable is overwritten and before the function returns without it, the control must have been tested, returned, or handed to another function; (CONT) in every loop node the continue arm leaves the loop over the body statements, so the rest of the iteration is skipped; (OWN) the break arm of a loop returns a nil control (the break is consumed here, not in the caller's loop), and function-like nodes consume a ReturnControl by returning its value with a nil control; (LEVEL) the level stored by `break N` / `continue N` is read by some loop; (CTX) CreateContext gives every call a freshly allocated variable vector. What programs print is not decided.",
 		Assumptions: []string{
 			"a control is 'handled' when it is compared with nil, type-tested, returned, or passed as an argument",
@@ -45,9 +45,9 @@ func init() {
 type c02State struct {
 	contPending  bool
 	breakPending bool
-	breakCond    bool // a condition was evaluated inside the break arm (e.g. a level test)
-	breakRoot    ast.Expr // the if-condition that established the break arm
-	okOf         map[types.Object]string // ok-variable → control kind it proves ("Break", "Continue", "Return")
+	breakCond    bool                          // a condition was evaluated inside the break arm (e.g. a level test)
+	breakRoot    ast.Expr                      // the if-condition that established the break arm
+	okOf         map[types.Object]string       // ok-variable → control kind it proves ("Break", "Continue", "Return")
 	okSrc        map[types.Object]types.Object // ok-variable → the control variable that was asserted
 	unchecked    map[types.Object]token.Pos
 	nonNil       map[types.Object]token.Pos // control variables known non-nil and not yet consumed
